@@ -112,6 +112,9 @@ type Unit struct {
 	noNilMerge bool
 	NAssumeCalls int
 	inInit   bool
+	argFreeOnly bool
+	SkippedMethods map[string]bool
+	MethodRuns map[string]int
 	LinearAppends int
 	Standalone int
 	cellByID map[int]*Cell
@@ -175,6 +178,8 @@ func NewUnit(p *Program, target *ssa.Function, cfg Config) *Unit {
 	u.uf = map[string]bool{}
 	u.litArr = map[string]*Term{}
 	u.cellByID = map[int]*Cell{}
+	u.SkippedMethods = map[string]bool{}
+	u.MethodRuns = map[string]int{}
 	u.divMemo = map[string]divEntry{}
 	u.reads = map[string][]readRec{}
 	u.readMemo = map[string]divEntry{}
@@ -500,6 +505,12 @@ func (u *Unit) check(st *State, name, kind string, goal *Term, text string) bool
 		o.Trivial++
 		return true
 	}
+	if o.Status != "proved" && kind != "frame" {
+		// already not discharged on another path: no need to pay the solver
+		// again; continue as if it held so that one defect is reported once
+		u.assume(goal)
+		return false
+	}
 	t0 := time.Now()
 	var want []string
 	if o.Status == "proved" && u.Cfg.WantModel {
@@ -527,6 +538,16 @@ func (u *Unit) check(st *State, name, kind string, goal *Term, text string) bool
 	}
 	var r string
 	var model map[string]string
+	if u.S.HasDeferred() && !strings.Contains(goal.S, "(forall ") {
+		// first without the quantified hypotheses
+		if rq := u.S.CheckGoalQF(goal, 800); rq == "unsat" {
+			if o.Solver == "" {
+				o.Solver = u.Cfg.Z3 + " (incremental)"
+			}
+			o.TimeS += time.Since(t0).Seconds()
+			return true
+		}
+	}
 	if len(goal.Conj) > 1 && len(goal.Conj) <= 64 {
 		// a conjunction is proved conjunct by conjunct (earlier ones assumed)
 		r = "unsat"
